@@ -119,13 +119,14 @@ class AbstractObj(object):
 
 
 class Env(object):
-    __slots__ = ("locals", "globals", "parent", "func_name")
+    __slots__ = ("locals", "globals", "parent", "func_name", "func_def")
 
-    def __init__(self, locals_, globals_, parent=None, func_name="?"):
+    def __init__(self, locals_, globals_, parent=None, func_name="?", func_def=None):
         self.locals = locals_
         self.globals = globals_
         self.parent = parent
         self.func_name = func_name
+        self.func_def = func_def if func_def is not None else (parent.func_def if parent is not None else None)
 
     def lookup(self, name):
         e = self
@@ -140,7 +141,7 @@ class Env(object):
         raise Raised(NameError, ("name %r is not defined" % name,))
 
     def child(self):
-        return Env({}, self.globals, self, self.func_name)
+        return Env({}, self.globals, self, self.func_name, self.func_def)
 
 
 # --------------------------------------------------------------------------------------------
@@ -956,7 +957,7 @@ class Engine(object):
         fdef = self.sources.funcdef(func)
         self.functions_interpreted.add("%s.%s" % (func.__module__, func.__qualname__))
         loc = self.bind_args(fdef, args, kwargs, None, func=func)
-        env = Env(loc, func.__globals__, None, func.__qualname__)
+        env = Env(loc, func.__globals__, None, func.__qualname__, fdef)
         # __class__ cell for zero-arg super(): not supported; explicit super(C, self) is.
         self.call_depth += 1
         if self.call_depth > 60:
@@ -1204,7 +1205,17 @@ class Engine(object):
             self.exec_block(st.orelse, env)
 
     def loop_key(self, st, env):
-        return "%s:%s" % (env.func_name, ast.unparse(st.iter if isinstance(st, ast.For) else st.test))
+        """<function qualname>:loop#<ordinal of this loop statement in the function> - independent of
+        the names of locals and of the text of the iterated expression"""
+        fdef = env.func_def
+        if fdef is None:
+            return "%s:%s" % (env.func_name, ast.unparse(st.iter if isinstance(st, ast.For) else st.test))
+        loops = sorted((n for n in ast.walk(fdef) if isinstance(n, (ast.For, ast.While))),
+                       key=lambda n: (n.lineno, n.col_offset))
+        for k, n in enumerate(loops):
+            if n is st:
+                return "%s:loop#%d" % (env.func_name, k)
+        return "%s:loop@%d" % (env.func_name, st.lineno)
 
     def st_For(self, st, env):
         key = self.loop_key(st, env)
